@@ -99,17 +99,22 @@ Theorem C19_example_header_offset :
   header_offset (bs "junk" ++ [x0a] ++ bs "%PDF-1.5 %PDF-") = 5%nat /\ header_offset (bs "%PD") = 0%nat.
 Proof. split; reflexivity. Qed.
 
-(* (6) "a later save of the same document ...": what a failed save leaves behind.  The save path
-   mutates the document at one point (after [pre], before [post]); a failed save leaves the document
-   untouched if fewer than |pre| bytes were delivered and otherwise exactly as a SUCCESSFUL save
-   leaves it -- nothing else. *)
+(* (6) "a later save of the same document ...": what a failed save leaves behind.  A plain save first
+   raises max_id to the largest object number [top] (idempotent; IncrementalDocument: top = None, no
+   raise), then mutates the document at one point (after [pre], before [post]); a failed save leaves
+   the document untouched up to that raise if fewer than |pre| bytes were delivered and otherwise
+   exactly as a SUCCESSFUL save leaves it -- nothing else. *)
 Theorem C19_failed_save_residue :
   forall wa, wa_sound wa ->
-  forall mode ids pre post st s r d st',
-    save_with wa mode ids pre post st s = (r, d, st') ->
-    ((length d < length (concat pre))%nat /\ st' = st /\ r <> WOk) \/
-    ((length (concat pre) <= length d)%nat /\ st' = mutate mode ids st).
+  forall mode ids top pre post st s r d st',
+    save_with wa mode ids top pre post st s = (r, d, st') ->
+    ((length d < length (concat pre))%nat /\ st' = raise_max_id top st /\ r <> WOk) \/
+    ((length (concat pre) <= length d)%nat /\ st' = mutate mode ids (raise_max_id top st)).
 Proof. exact failed_save_residue. Qed.
+
+Theorem C19_raise_idempotent :
+  forall top st, raise_max_id top (raise_max_id top st) = raise_max_id top st.
+Proof. exact raise_idem. Qed.
 
 (* both readings of a sink are sound, so (6) applies to each *)
 Theorem C19_sinks_sound : wa_sound write_all /\ wa_sound qwrite_all.
@@ -121,8 +126,8 @@ Theorem C19_resave_table :
   (forall st, mutate_table (mutate_table st) = mutate_table st) /\
   (forall st, s_max_id (mutate_table st) = s_max_id st /\
               forall k, k <> K_Size -> dict_get (s_trailer (mutate_table st)) k = dict_get (s_trailer st) k) /\
-  (forall pre_of post_of st st', st' = st \/ st' = mutate_table st ->
-      table_calls pre_of post_of st' = table_calls pre_of post_of st).
+  (forall pre_of post_of top st st', st' = raise_max_id top st \/ st' = mutate_table (raise_max_id top st) ->
+      table_calls pre_of post_of top st' = table_calls pre_of post_of top st).
 Proof.
   split; [exact mutate_table_idem|]. split; [|exact resave_table_same_calls].
   intro st. destruct (mutate_table_frame st) as [H1 [_ H3]]. auto.
@@ -135,13 +140,16 @@ Qed.
    offset by the harness. *)
 Theorem C19_resave_stream_partial :
   (forall ids st n, s_max_id (iter n (mutate_stream ids) st) = s_max_id st + N.of_nat n) /\
+  (forall ids top st n, iter n (fun x => mutate_stream ids (raise_max_id top x)) (raise_max_id top st) =
+                        iter n (mutate_stream ids) (raise_max_id top st)) /\
   (forall ids st k, dict_has (s_trailer st) K_Filter = false -> ~ bookkeeping k ->
       dict_get (s_trailer (mutate_stream ids st)) k = dict_get (s_trailer st) k) /\
   (forall pre post_of ids st st',
       firstn (length (concat pre)) (concat (stream_calls pre post_of ids st')) =
       firstn (length (concat pre)) (concat (stream_calls pre post_of ids st))).
 Proof.
-  split; [intros; apply stream_residue_after_n|]. split; [exact mutate_stream_frame | exact resave_stream_same_body].
+  split; [intros; apply stream_residue_after_n|]. split; [exact stream_residue_after_n_raised|].
+  split; [exact mutate_stream_frame | exact resave_stream_same_body].
 Qed.
 
 (* (7) instantiated at the save model of Model/Save.v (the bytes of property C01) *)
@@ -162,7 +170,8 @@ Proof. exact save_failure_at_position. Qed.
 
 Theorem C19_save_state_agrees :
   forall d, Save.so_status (Save.save Save.XTable d) = Save.SaveOk ->
-    state_of (Save.so_doc (Save.save Save.XTable d)) = mutate_table (state_of d).
+    state_of (Save.so_doc (Save.save Save.XTable d)) =
+    mutate_table (raise_max_id (Some (Save.last_object_number (d_objects d))) (state_of d)).
 Proof. exact save_table_state. Qed.
 
 (* (8) Document::save(path) / IncrementalDocument::save(path) = File::create(path)?, save_internal into a
@@ -233,9 +242,10 @@ Qed.
    through this statement, which is why the correspondence compares the document state only for
    runs where the file holds at least |pre| bytes (or the save succeeded, or the file was not created). *)
 Theorem C19_save_path_residue :
-  forall wa, wa_sound wa -> forall cap mode ids pre post st s r file st',
-    save_path_with wa cap mode ids pre post st None s = (r, file, st') ->
-    (st' = st /\ r <> WOk /\ (length file < length (concat pre))%nat) \/ st' = mutate mode ids st.
+  forall wa, wa_sound wa -> forall cap mode ids top pre post st s r file st',
+    save_path_with wa cap mode ids top pre post st None s = (r, file, st') ->
+    (st' = raise_max_id top st /\ r <> WOk /\ (length file < length (concat pre))%nat) \/
+    st' = mutate mode ids (raise_max_id top st).
 Proof. exact save_path_with_residue. Qed.
 
 (* non-vacuity, and separation: the same device, the same output -- `into_inner()?` reports the
@@ -269,10 +279,12 @@ Theorem C19_example_counter : counter_before ex_calls ex_soft 4 = Some 16.
 Proof. exact ex_counter. Qed.
 
 Theorem C19_example_residue :
-  save_with qwrite_all XStream [1; 2; 4] [bs "%PDF-1.5"; bs "objects"] [bs "xrefstream"] ex_state [Accept 9; Fail EStorageFull]
+  save_with qwrite_all XStream [1; 2; 4] (Some 4) [bs "%PDF-1.5"; bs "objects"] [bs "xrefstream"] ex_state [Accept 9; Fail EStorageFull]
   = (WErr EStorageFull, bs "%PDF-1.5o", ex_state) /\
-  save_with write_all XStream [1; 2; 4] [bs "%PDF-1.5"; bs "objects"] [bs "xrefstream"] ex_state [Accept 8; Accept 7; Accept 3; Zero]
-  = (WErr EWriteZero, bs "%PDF-1.5objectsxre", mutate_stream [1; 2; 4] ex_state).
+  save_with write_all XStream [1; 2; 4] (Some 4) [bs "%PDF-1.5"; bs "objects"] [bs "xrefstream"] ex_state [Accept 8; Accept 7; Accept 3; Zero]
+  = (WErr EWriteZero, bs "%PDF-1.5objectsxre", mutate_stream [1; 2; 4] ex_state) /\
+  save_with write_all XTable [1; 2; 9] (Some 9) [bs "%PDF-1.5"; bs "objects"] [bs "trailer"] ex_state [Fail EBrokenPipe]
+  = (WErr EBrokenPipe, [], {| s_max_id := 9; s_trailer := s_trailer ex_state |}).
 Proof. exact ex_residue. Qed.
 
 Print Assumptions C19_chunking_irrelevant.
@@ -288,6 +300,7 @@ Print Assumptions C19_positional_is_single_call.
 Print Assumptions C19_incremental_is_plain.
 Print Assumptions C19_example_header_offset.
 Print Assumptions C19_failed_save_residue.
+Print Assumptions C19_raise_idempotent.
 Print Assumptions C19_sinks_sound.
 Print Assumptions C19_resave_table.
 Print Assumptions C19_resave_stream_partial.
